@@ -265,7 +265,15 @@ impl BigRat {
         }
 
         if digits == Digits::Fraction {
-            return (true, format!("{}", self));
+            // Numerator and denominator are numerals of the same base as
+            // every other form.
+            let (num, den) = (self.numer(), self.denom());
+            let text = if den == BigInt::one() {
+                num.to_str_radix(base)
+            } else {
+                format!("{}/{}", num.to_str_radix(base), den.to_str_radix(base))
+            };
+            return (true, text);
         }
 
         let abs = self.abs();
